@@ -282,6 +282,15 @@ theorem not_mem_of_mem_splitOn {c : Char} {s p : Str} (h : p ∈ splitOn c s) : 
         | inr m =>
           exact ih (by simp [heq, m])
 
+theorem joinWith_cons_flatMap (c : Char) (a : Str) (l : List Str) :
+    joinWith c (a :: l) = a ++ l.flatMap fun x => c :: x := by
+  induction l generalizing a with
+  | nil => simp [joinWith]
+  | cons b rest ih =>
+    simp only [joinWith, List.flatMap_cons]
+    rw [ih b]
+    simp
+
 /-- `split(c)` followed by `join(c)` is the identity -/
 theorem joinWith_splitOn (c : Char) (s : Str) : joinWith c (splitOn c s) = s := by
   induction s with
